@@ -219,16 +219,16 @@ Proof.
     assert (s' = upd_files s (txl s) (cml s) (vls s) (f_flushn (ahd s) n) (ahc s)) by congruence. subst s'.
     constructor; unfold upd_files;
       cbn [s_cfg vls txl cml ahd ahc committed pbuf palh pts acked phase_ asize alatest acnt precommitted]; auto.
-    destruct Iaht as ((A1 & A2 & A3 & A4 & A5 & A6 & A7 & A8 & A9 & A10) & B). split; auto.
+    destruct Iaht as ((A1 & A2 & A3 & A4 & A5 & A6) & B). split; auto.
     unfold AInv in *. simp_st.
-    rewrite f_offset_flushn. repeat split; auto. apply wf_flushn; auto.
+    rewrite f_offset_flushn. split; [apply wf_flushn; auto|]. auto.
   - (* tree commit log: nothing is ever buffered there between steps *)
     assert (s' = upd_files s (txl s) (cml s) (vls s) (ahd s) (f_flushn (ahc s) n)) by congruence. subst s'.
-    destruct Iaht as ((A1 & A2 & A3 & A4 & A5 & A6 & A7 & A8 & A9 & A10) & B).
-    simp_st. rewrite flushn_nobuf by auto.
+    destruct Iaht as ((A1 & A2 & A3 & A4 & A5 & A6) & B).
+    simp_st. rewrite flushn_nobuf by (apply A2).
     constructor; unfold upd_files;
       cbn [s_cfg vls txl cml ahd ahc committed pbuf palh pts acked phase_ asize alatest acnt precommitted]; auto.
-    split; auto. unfold AInv. simp_st. repeat split; auto.
+    split; auto. unfold AInv. simp_st. auto 10.
 Qed.
 
 Lemma step_OSyncTx nv s h d s' : Inv nv s h d -> step s OSyncTx = Ok s' ->
